@@ -19,6 +19,8 @@ def group_of(key):
     recv, _, name = key.rpartition(".")
     if key in READER:
         return {"reader"}
+    if key == "buffer.get":
+        return {"wiregen"}  # regenerated statement by statement (gen/GenBuf.v, SyncBuf.v)
     if recv == "buffer":
         return {"buffer"}
     if name in ("String", "dump", "filterString", "Error") or key in RENDER_FUNCS or recv == "Malformed":
@@ -62,25 +64,25 @@ PROP_GROUPS = {
 }
 
 PROP_SYNC = {
-    "C01": ["gen/GenConsts.v", "gen/SyncEnc.v", "gen/SyncDec.v", "gen/SyncMisc.v", "gen/SyncApi.v", "gen/SyncAcc.v", "gen/SyncWire.v", "gen/SyncWireDec.v"],
+    "C01": ["gen/GenConsts.v", "gen/SyncEnc.v", "gen/SyncDec.v", "gen/SyncMisc.v", "gen/SyncApi.v", "gen/SyncAcc.v", "gen/SyncWire.v", "gen/SyncWireDec.v", "gen/SyncBuf.v"],
     "C02": ["gen/GenConsts.v", "gen/SyncEnc.v", "gen/SyncMisc.v", "gen/SyncApi.v", "gen/SyncAcc.v", "gen/SyncWire.v"],
-    "C03": ["gen/GenConsts.v", "gen/SyncDec.v", "gen/SyncMisc.v", "gen/SyncAcc.v", "gen/SyncWireDec.v"],
-    "C04": ["gen/SyncDec.v", "gen/SyncMisc.v", "gen/SyncWireDec.v"],
-    "C05": ["gen/SyncDec.v", "gen/SyncMisc.v", "gen/SyncWireDec.v"],
-    "C06": ["gen/SyncDec.v", "gen/SyncMisc.v", "gen/SyncWireDec.v"],
-    "C07": ["gen/SyncDec.v", "gen/SyncMisc.v", "gen/SyncWireDec.v"],
-    "C08": ["gen/SyncDec.v", "gen/SyncMisc.v", "gen/SyncWireDec.v"],
-    "C09": ["gen/GenConsts.v", "gen/SyncDec.v", "gen/SyncMisc.v", "gen/SyncWireDec.v"],
+    "C03": ["gen/GenConsts.v", "gen/SyncDec.v", "gen/SyncMisc.v", "gen/SyncAcc.v", "gen/SyncWireDec.v", "gen/SyncBuf.v"],
+    "C04": ["gen/SyncDec.v", "gen/SyncMisc.v", "gen/SyncWireDec.v", "gen/SyncBuf.v"],
+    "C05": ["gen/SyncDec.v", "gen/SyncMisc.v", "gen/SyncWireDec.v", "gen/SyncBuf.v"],
+    "C06": ["gen/SyncDec.v", "gen/SyncMisc.v", "gen/SyncWireDec.v", "gen/SyncBuf.v"],
+    "C07": ["gen/SyncDec.v", "gen/SyncMisc.v", "gen/SyncWireDec.v", "gen/SyncBuf.v"],
+    "C08": ["gen/SyncDec.v", "gen/SyncMisc.v", "gen/SyncWireDec.v", "gen/SyncBuf.v"],
+    "C09": ["gen/GenConsts.v", "gen/SyncDec.v", "gen/SyncMisc.v", "gen/SyncWireDec.v", "gen/SyncBuf.v"],
     "C10": ["gen/SyncEnc.v", "gen/SyncMisc.v", "gen/SyncString.v", "gen/SyncWire.v"],
     "C11": ["gen/SyncEnc.v", "gen/SyncMisc.v", "gen/SyncApi.v", "gen/SyncEffects.v", "gen/SyncWire.v"],
     "C12": ["gen/GenConsts.v", "gen/SyncEnc.v", "gen/SyncApi.v", "gen/SyncAcc.v", "gen/SyncWire.v"],
-    "C13": ["gen/SyncEnc.v", "gen/SyncDec.v", "gen/SyncMisc.v", "gen/SyncEffects.v", "gen/SyncWire.v", "gen/SyncWireDec.v"],
-    "C14": ["gen/SyncDec.v", "gen/SyncMisc.v", "gen/SyncEffects.v", "gen/SyncWireDec.v"],
-    "C15": ["gen/SyncWire.v", "gen/SyncWireDec.v"],
-    "C16": ["gen/GenConsts.v", "gen/SyncEnc.v", "gen/SyncDec.v", "gen/SyncMisc.v", "gen/SyncAcc.v", "gen/SyncWire.v", "gen/SyncWireDec.v"],
+    "C13": ["gen/SyncEnc.v", "gen/SyncDec.v", "gen/SyncMisc.v", "gen/SyncEffects.v", "gen/SyncWire.v", "gen/SyncWireDec.v", "gen/SyncBuf.v"],
+    "C14": ["gen/SyncDec.v", "gen/SyncMisc.v", "gen/SyncEffects.v", "gen/SyncWireDec.v", "gen/SyncBuf.v"],
+    "C15": ["gen/SyncWire.v", "gen/SyncWireDec.v", "gen/SyncBuf.v"],
+    "C16": ["gen/GenConsts.v", "gen/SyncEnc.v", "gen/SyncDec.v", "gen/SyncMisc.v", "gen/SyncAcc.v", "gen/SyncWire.v", "gen/SyncWireDec.v", "gen/SyncBuf.v"],
     "C17": ["gen/SyncString.v", "gen/SyncAcc.v", "gen/SyncWf.v"],
     "C18": ["gen/SyncEnc.v", "gen/SyncAcc.v", "gen/SyncDump.v", "gen/SyncString.v", "gen/SyncWire.v"],
-    "C19": ["gen/SyncEnc.v", "gen/SyncDec.v", "gen/SyncAcc.v", "gen/SyncDump.v", "gen/SyncString.v", "gen/SyncWire.v", "gen/SyncWireDec.v"],
+    "C19": ["gen/SyncEnc.v", "gen/SyncDec.v", "gen/SyncAcc.v", "gen/SyncDump.v", "gen/SyncString.v", "gen/SyncWire.v", "gen/SyncWireDec.v", "gen/SyncBuf.v"],
 }
 
 
